@@ -23,6 +23,163 @@ static mut ROOT_LEN: usize = 0;
 static mut SEQ: u64 = 0;
 pub static FILE_OPS: std::sync::atomic::AtomicU64 = std::sync::atomic::AtomicU64::new(0);
 
+// ---- injected I/O faults (fault kind F11) -------------------------------------------------------------------------
+// A run's `io_fault` word (0 = none) decides, for the k-th eligible file operation of thread `me` inside library
+// calls of this process, whether it fails and how: a pure function of (io_fault, me, k), so a replay of the same
+// schedule meets the same faults. Eligible: opens / renames / unlinks / mkdirs of redirected paths, and reads, writes
+// and fsyncs on descriptors the library opened through the seam. The errors are ones a real system produces at these
+// calls (EINTR, EIO, ENOSPC, EACCES, EMFILE, ENOENT, short reads and writes).
+pub static IO_FAULT: std::sync::atomic::AtomicU64 = std::sync::atomic::AtomicU64::new(0);
+#[allow(clippy::declare_interior_mutable_const)]
+const CNT0: std::sync::atomic::AtomicU64 = std::sync::atomic::AtomicU64::new(0);
+pub const IO_KINDS: [&str; 8] = ["open_error", "write_error", "short_write", "interrupted", "read_error", "short_read", "rename_unlink_mkdir_error", "fsync_error"];
+pub static IO_INJECTED: [std::sync::atomic::AtomicU64; 8] = [CNT0; 8];
+
+fn io_count(k: usize) {
+    IO_INJECTED[k].fetch_add(1, std::sync::atomic::Ordering::Relaxed);
+}
+
+pub fn io_injected() -> Vec<u64> {
+    IO_INJECTED.iter().map(|c| c.load(std::sync::atomic::Ordering::Relaxed)).collect()
+}
+
+/// 0 = this operation goes through; otherwise pseudo-random bits that choose the fault
+fn io_draw() -> u64 {
+    let f = IO_FAULT.load(std::sync::atomic::Ordering::Relaxed);
+    if f == 0 || !in_library_call() {
+        return 0;
+    }
+    let (me, k) = T
+        .try_with(|c| {
+            let k = c.io_ops.get();
+            c.io_ops.set(k + 1);
+            (c.me.get() as u64, k)
+        })
+        .unwrap_or((0, 0));
+    let h = crate::types::mix(crate::types::mix(f, me), k);
+    let rate = [40u64, 120, 300, 600][(f & 3) as usize];
+    if h % 1000 < rate {
+        (h >> 12) | 1
+    } else {
+        0
+    }
+}
+
+unsafe fn fail(e: c_int) -> c_int {
+    crate::sim::file_op_point();
+    *libc::__errno_location() = e;
+    -1
+}
+
+// ---- what a power loss may take away ------------------------------------------------------------------------------
+// Every descriptor the library opens for writing through the seam, and every fsync / fdatasync it issues on one, is
+// noted in `<root>/.journal` as (inode, size, kind). When a phase of a restart run ends in a power loss, the
+// supervisor cuts each file back: bytes beyond the size at the last fsync (or, never synced, at the first open) may be
+// gone, wholly or in part, or read back as zeros. In-place overwrites and renames are taken as durable.
+unsafe fn journal(fd: c_int, kind: u64) {
+    if !active() {
+        return;
+    }
+    let mut st: libc::stat = std::mem::zeroed();
+    if raw(libc::SYS_fstat, fd as c_long, &mut st as *mut _ as c_long, 0, 0, 0) != 0 || (st.st_mode & libc::S_IFMT) != libc::S_IFREG {
+        return;
+    }
+    let mut p = [0u8; 200];
+    let r = root();
+    p[..r.len()].copy_from_slice(r);
+    p[r.len()..r.len() + 9].copy_from_slice(b"/.journal");
+    let jf = raw(libc::SYS_openat, libc::AT_FDCWD as c_long, p.as_ptr() as c_long, (libc::O_WRONLY | libc::O_CREAT | libc::O_APPEND) as c_long, 0o600, 0);
+    if jf >= 0 {
+        let mut rec = [0u8; 24];
+        rec[..8].copy_from_slice(&(st.st_ino as u64).to_le_bytes());
+        rec[8..16].copy_from_slice(&(st.st_size as u64).to_le_bytes());
+        rec[16..].copy_from_slice(&kind.to_le_bytes());
+        raw(libc::SYS_write, jf, rec.as_ptr() as c_long, 24, 0, 0);
+        raw(libc::SYS_close, jf, 0, 0, 0, 0);
+    }
+}
+
+/// supervisor side, between two process incarnations: apply a power loss chosen by `seed` to the private disk.
+/// Returns the number of files that lost something.
+pub fn power_loss(seed: u64) -> u64 {
+    use std::collections::BTreeMap;
+    use std::os::unix::fs::MetadataExt;
+    if !active() {
+        return 0;
+    }
+    let rs = match std::str::from_utf8(root()) {
+        Ok(s) => s.to_string(),
+        Err(_) => return 0,
+    };
+    let jpath = format!("{}/.journal", rs);
+    let j = std::fs::read(&jpath).unwrap_or_default();
+    let _ = std::fs::remove_file(&jpath);
+    // inode -> (size at first open, size at last fsync)
+    let mut dur: BTreeMap<u64, (u64, Option<u64>)> = BTreeMap::new();
+    for rec in j.chunks_exact(24) {
+        let ino = u64::from_le_bytes(rec[..8].try_into().unwrap());
+        let size = u64::from_le_bytes(rec[8..16].try_into().unwrap());
+        let kind = u64::from_le_bytes(rec[16..].try_into().unwrap());
+        let e = dur.entry(ino).or_insert((size, None));
+        if kind == 1 {
+            e.1 = Some(size);
+        }
+    }
+    if dur.is_empty() {
+        return 0;
+    }
+    let mut files: Vec<std::path::PathBuf> = Vec::new();
+    let mut stack = vec![std::path::PathBuf::from(&rs)];
+    while let Some(d) = stack.pop() {
+        let mut names: Vec<_> = match std::fs::read_dir(&d) {
+            Ok(rd) => rd.filter_map(|e| e.ok()).map(|e| e.path()).collect(),
+            Err(_) => continue,
+        };
+        names.sort();
+        for p in names {
+            match std::fs::symlink_metadata(&p) {
+                Ok(m) if m.is_dir() => stack.push(p),
+                Ok(m) if m.is_file() => files.push(p),
+                _ => {}
+            }
+        }
+    }
+    files.sort();
+    let mut rng = crate::types::Rng::new(crate::types::mix(seed, 0x706f_7765_72));
+    let mut hit = 0;
+    for p in files {
+        let m = match std::fs::metadata(&p) {
+            Ok(m) => m,
+            Err(_) => continue,
+        };
+        let (first, synced) = match dur.get(&m.ino()) {
+            Some(d) => *d,
+            None => continue,
+        };
+        let cur = m.len();
+        let safe = synced.unwrap_or(first).min(cur);
+        if cur <= safe {
+            continue;
+        }
+        let cut = safe + rng.below((cur - safe) as usize + 1) as u64;
+        match rng.below(4) {
+            0 => continue, // everything had reached the disk
+            1 => {
+                let _ = std::fs::OpenOptions::new().write(true).open(&p).and_then(|f| f.set_len(safe));
+            }
+            2 => {
+                let _ = std::fs::OpenOptions::new().write(true).open(&p).and_then(|f| f.set_len(cut));
+            }
+            _ => {
+                // the size made it, the data beyond `cut` did not
+                let _ = std::fs::OpenOptions::new().write(true).open(&p).and_then(|f| f.set_len(cut).and_then(|_| f.set_len(cur)));
+            }
+        }
+        hit += 1;
+    }
+    hit
+}
+
 fn root() -> &'static [u8] {
     unsafe {
         let r: &'static [u8; 160] = &*std::ptr::addr_of!(ROOT);
@@ -186,12 +343,31 @@ macro_rules! tbuf {
 pub unsafe extern "C" fn open64(path: *const c_char, flags: c_int, mode: c_uint) -> c_int {
     let mut b = tbuf!();
     let p = tr(path, &mut b);
+    if p != path {
+        let h = io_draw();
+        if h != 0 {
+            let creat = flags & libc::O_CREAT != 0;
+            let e = match (h >> 3) % 6 {
+                0 => libc::EINTR,
+                1 => libc::EMFILE,
+                2 => libc::EACCES,
+                3 if creat => libc::ENOSPC,
+                4 if !creat => libc::ENOENT,
+                _ => libc::EIO,
+            };
+            io_count(if e == libc::EINTR { 3 } else { 0 });
+            return fail(e);
+        }
+    }
     let r = ret_errno(raw(libc::SYS_openat, libc::AT_FDCWD as c_long, p as c_long, flags as c_long, mode as c_long, 0));
     if p != path {
         // a second point right after the file exists / was truncated
         let e = *libc::__errno_location();
         if r >= 0 && (r as usize) < LIB_FDS.len() {
             LIB_FDS[r as usize].store(true, std::sync::atomic::Ordering::Relaxed);
+            if flags & (libc::O_WRONLY | libc::O_RDWR) != 0 {
+                journal(r, 0);
+            }
         }
         crate::sim::file_op_point();
         *libc::__errno_location() = e;
@@ -207,6 +383,32 @@ static LIB_FDS: [std::sync::atomic::AtomicBool; 1024] = [FD_UNSET; 1024];
 
 #[no_mangle]
 pub unsafe extern "C" fn write(fd: c_int, buf: *const c_void, n: libc::size_t) -> libc::ssize_t {
+    let mut n = n;
+    if fd >= 0 && (fd as usize) < LIB_FDS.len() && LIB_FDS[fd as usize].load(std::sync::atomic::Ordering::Relaxed) {
+        let h = io_draw();
+        if h != 0 {
+            match (h >> 3) % 4 {
+                0 => {
+                    io_count(3);
+                    return fail(libc::EINTR) as libc::ssize_t;
+                }
+                1 => {
+                    io_count(1);
+                    return fail(libc::ENOSPC) as libc::ssize_t;
+                }
+                2 => {
+                    io_count(1);
+                    return fail(libc::EIO) as libc::ssize_t;
+                }
+                _ => {
+                    if n > 1 {
+                        io_count(2);
+                        n = 1 + ((h >> 8) as usize) % (n - 1);
+                    }
+                }
+            }
+        }
+    }
     let r = raw(libc::SYS_write, fd as c_long, buf as c_long, n as c_long, 0, 0);
     let out = if r < 0 && r >= -4095 {
         *libc::__errno_location() = (-r) as i32;
@@ -239,6 +441,77 @@ pub unsafe extern "C" fn close(fd: c_int) -> c_int {
         LIB_FDS[fd as usize].store(false, std::sync::atomic::Ordering::Relaxed);
     }
     ret_errno(raw(libc::SYS_close, fd as c_long, 0, 0, 0, 0))
+}
+
+#[no_mangle]
+pub unsafe extern "C" fn read(fd: c_int, buf: *mut c_void, n: libc::size_t) -> libc::ssize_t {
+    let mut n = n;
+    let lib = fd >= 0 && (fd as usize) < LIB_FDS.len() && LIB_FDS[fd as usize].load(std::sync::atomic::Ordering::Relaxed) && in_library_call();
+    if lib {
+        let h = io_draw();
+        if h != 0 {
+            match (h >> 3) % 3 {
+                0 => {
+                    io_count(3);
+                    return fail(libc::EINTR) as libc::ssize_t;
+                }
+                1 => {
+                    io_count(4);
+                    return fail(libc::EIO) as libc::ssize_t;
+                }
+                _ => {
+                    if n > 1 {
+                        io_count(5);
+                        n = 1 + ((h >> 8) as usize) % (n - 1);
+                    }
+                }
+            }
+        }
+    }
+    let r = raw(libc::SYS_read, fd as c_long, buf as c_long, n as c_long, 0, 0);
+    let out = if r < 0 && r >= -4095 {
+        *libc::__errno_location() = (-r) as i32;
+        -1
+    } else {
+        r as libc::ssize_t
+    };
+    if lib {
+        // a reader can be overtaken between two reads of one file
+        let e = *libc::__errno_location();
+        FILE_OPS.fetch_add(1, std::sync::atomic::Ordering::Relaxed);
+        crate::sim::file_op_point();
+        *libc::__errno_location() = e;
+    }
+    out
+}
+
+unsafe fn sync_common(fd: c_int, num: c_long) -> c_int {
+    if fd >= 0 && (fd as usize) < LIB_FDS.len() && LIB_FDS[fd as usize].load(std::sync::atomic::Ordering::Relaxed) && in_library_call() {
+        FILE_OPS.fetch_add(1, std::sync::atomic::Ordering::Relaxed);
+        let h = io_draw();
+        if h != 0 {
+            let e = if (h >> 3) % 3 == 0 { libc::EINTR } else { libc::EIO };
+            io_count(if e == libc::EINTR { 3 } else { 7 });
+            return fail(e);
+        }
+        journal(fd, 1);
+        let r = ret_errno(raw(num, fd as c_long, 0, 0, 0, 0));
+        let e = *libc::__errno_location();
+        crate::sim::file_op_point();
+        *libc::__errno_location() = e;
+        return r;
+    }
+    ret_errno(raw(num, fd as c_long, 0, 0, 0, 0))
+}
+
+#[no_mangle]
+pub unsafe extern "C" fn fsync(fd: c_int) -> c_int {
+    sync_common(fd, libc::SYS_fsync)
+}
+
+#[no_mangle]
+pub unsafe extern "C" fn fdatasync(fd: c_int) -> c_int {
+    sync_common(fd, libc::SYS_fdatasync)
 }
 
 #[no_mangle]
@@ -307,6 +580,13 @@ pub unsafe extern "C" fn access(path: *const c_char, mode: c_int) -> c_int {
 pub unsafe extern "C" fn unlink(path: *const c_char) -> c_int {
     let mut b = tbuf!();
     let p = tr(path, &mut b);
+    if p != path {
+        let h = io_draw();
+        if h != 0 {
+            io_count(6);
+            return fail([libc::EACCES, libc::EIO, libc::EBUSY][((h >> 3) % 3) as usize]);
+        }
+    }
     ret_errno(raw(libc::SYS_unlinkat, libc::AT_FDCWD as c_long, p as c_long, 0, 0, 0))
 }
 
@@ -330,6 +610,13 @@ pub unsafe extern "C" fn rename(old: *const c_char, new: *const c_char) -> c_int
     let mut b2 = tbuf!();
     let p1 = tr(old, &mut b1);
     let p2 = tr(new, &mut b2);
+    if p1 != old || p2 != new {
+        let h = io_draw();
+        if h != 0 {
+            io_count(6);
+            return fail([libc::EACCES, libc::ENOSPC, libc::EIO, libc::EBUSY][((h >> 3) % 4) as usize]);
+        }
+    }
     let r = ret_errno(raw(libc::SYS_renameat2, libc::AT_FDCWD as c_long, p1 as c_long, libc::AT_FDCWD as c_long, p2 as c_long, 0));
     if p1 != old || p2 != new {
         let e = *libc::__errno_location();
@@ -352,6 +639,13 @@ pub unsafe extern "C" fn renameat(d1: c_int, old: *const c_char, d2: c_int, new:
 pub unsafe extern "C" fn mkdir(path: *const c_char, mode: c_uint) -> c_int {
     let mut b = tbuf!();
     let p = tr(path, &mut b);
+    if p != path {
+        let h = io_draw();
+        if h != 0 {
+            io_count(6);
+            return fail([libc::EACCES, libc::ENOSPC, libc::EIO][((h >> 3) % 3) as usize]);
+        }
+    }
     ret_errno(raw(libc::SYS_mkdirat, libc::AT_FDCWD as c_long, p as c_long, mode as c_long, 0, 0))
 }
 
